@@ -711,7 +711,14 @@ def make_shrinker(ctx, impl):
                 case = dict(cand, refs=fails(cand))
         return case
 
-    return shrink
+    def shrink_and_clean(what, case):
+        # called from finish(), after run() removed its scratch directory: Impl recreates it on demand
+        try:
+            return shrink(what, case)
+        finally:
+            shutil.rmtree(impl.workdir, ignore_errors=True)
+
+    return shrink_and_clean
 
 
 def check_methods(ctx):
